@@ -43,7 +43,13 @@ func badAlias() []byte {
 	return b
 }
 
-func badString(s string) int { return len(s) }
+func badString(s string) int {
+	n := 0
+	for _, r := range s {
+		n += int(r)
+	}
+	return n
+}
 
 func badGoto(x int) int {
 	if x > 0 {
